@@ -2976,6 +2976,25 @@ func specWrittenAsTaken(r0 int, w0 int, m int, sock int) bool {
 //@   loop 1 invariant C14.bess.loop.l1.count: glen("sockwrite")-old[int](glen("sockwrite")) == glen("recv")-old[int](glen("recv")) && glen("recv") >= old[int](glen("recv")) && b.endMarkerSocket != nil
 //@   loop 1 invariant C14.bess.loop.l1.each: forall m int :: 0 <= m && m < glen("recv")-old[int](glen("recv")) ==> specWrittenAsTaken(old[int](glen("recv")), old[int](glen("sockwrite")), m, dynRef(b.endMarkerSocket))
 
+// SendPacketOut is the UP4 boundary for end markers (a gRPC stream send): one packet-out per call,
+// recorded in the ghost log "pktout" (fields data / len: the payload handed over).
+//@ func (c *P4rtClient) SendPacketOut(packet []byte) (err error)
+//@   trusted
+//@   appends pktout
+//@   ensures gfield("pktout.data", gentry("pktout", glen("pktout")-1)) == uint64(sliceRef(packet)) && gfield("pktout.len", gentry("pktout", glen("pktout")-1)) == uint64(len(packet))
+
+func specSentAsTaken(r0 int, w0 int, m int) bool {
+	return gfield("pktout.data", gentry("pktout", w0+m)) == gfield("recv.ref", gentry("recv", r0+m)) &&
+		gfield("pktout.len", gentry("pktout", w0+m)) == gfield("recv.len", gentry("recv", r0+m))
+}
+
+//@ func (up4 *UP4) endMarkerSendLoop()
+//@   requires up4 != nil && up4.p4client != nil
+//@   ensures C14.up4.loop.count: glen("pktout")-old[int](glen("pktout")) == glen("recv")-old[int](glen("recv"))
+//@   ensures C14.up4.loop.each: forall m int :: 0 <= m && m < glen("recv")-old[int](glen("recv")) ==> specSentAsTaken(old[int](glen("recv")), old[int](glen("pktout")), m)
+//@   loop 1 invariant C14.up4.loop.l1.count: glen("pktout")-old[int](glen("pktout")) == glen("recv")-old[int](glen("recv")) && glen("recv") >= old[int](glen("recv")) && up4.p4client != nil
+//@   loop 1 invariant C14.up4.loop.l1.each: forall m int :: 0 <= m && m < glen("recv")-old[int](glen("recv")) ==> specSentAsTaken(old[int](glen("recv")), old[int](glen("pktout")), m)
+
 //@ func (d datapath) SendEndMarkers(endMarkerList *[][]byte) (err error)
 //@   trusted
 //@   pure
